@@ -284,7 +284,9 @@ unsafe fn raw_deliver() {
         "30:",
         "lea rax, [rip + {ctx}]",
         "mov rsp, [rax + 72]",
-        "cld",
+        // sane flags whatever was loaded (sigreturn does not restore NT; a set NT makes every later iretq fault)
+        "push 0x202",
+        "popfq",
         "pop r15", "pop r14", "pop r13", "pop r12", "pop rbp", "pop rbx",
         ctx = sym CTX,
         out("r12") _, out("r13") _, out("r14") _, out("r15") _,
@@ -318,9 +320,19 @@ fn write_num(mut n: u64) {
     write_err(&buf[i..]);
 }
 
+/// Messages are capped: stderr is a pipe that run.py drains only at the end.
+static mut ANNOUNCED: u32 = 0;
+const MAX_ANNOUNCEMENTS: u32 = 40;
+
 fn announce(what: &[u8], code: u64) {
-    if unsafe { QUIET } {
-        return;
+    unsafe {
+        if QUIET || ANNOUNCED >= MAX_ANNOUNCEMENTS {
+            return;
+        }
+        ANNOUNCED += 1;
+        if ANNOUNCED == MAX_ANNOUNCEMENTS {
+            write_err(b"C13 deliver: (further messages suppressed)\n");
+        }
     }
     write_err(b"C13 deliver: ");
     write_err(what);
@@ -348,6 +360,10 @@ extern "C" fn on_signal(sig: libc::c_int, _info: *mut libc::siginfo_t, uc: *mut 
 }
 
 extern "C" fn on_alarm(_sig: libc::c_int) {
+    unsafe {
+        QUIET = false;
+        ANNOUNCED = 0;
+    }
     announce(b"watchdog timeout, in_delivery =", unsafe { IN_DELIVERY } as u64);
     unsafe { libc::_exit(72) };
 }
@@ -423,15 +439,44 @@ impl Drop for Guards {
 
 // ------------------------------------------------------------------------------------- self test
 
-extern "x86-interrupt" fn selftest_plain(frame: InterruptStackFrame) {
-    general_handler(frame, 200, None);
+/// The hardware frame as the harness itself declares it (the self-test must not depend on the
+/// crate's `InterruptStackFrame`, which is part of what C13 checks).
+#[repr(C)]
+struct RawFrame {
+    rip: u64,
+    cs: u64,
+    flags: u64,
+    rsp: u64,
+    ss: u64,
 }
 
-extern "x86-interrupt" fn selftest_err(frame: InterruptStackFrame, error_code: u64) {
-    general_handler(frame, 201, Some(error_code));
+unsafe fn selftest_record(f: &RawFrame, index: u64, err: Option<u64>) {
+    SEEN.calls += 1;
+    SEEN.index = index;
+    SEEN.err = err;
+    SEEN.rip = f.rip;
+    SEEN.cs = f.cs & 0xffff;
+    SEEN.flags = f.flags;
+    SEEN.rsp = f.rsp;
+    SEEN.ss = f.ss & 0xffff;
+    if LEAVE_BY_IRETQ {
+        asm!(
+            "push {ss}", "push {rsp}", "push {fl}", "push {cs}", "push {rip}", "iretq",
+            ss = in(reg) f.ss, rsp = in(reg) f.rsp, fl = in(reg) f.flags, cs = in(reg) f.cs, rip = in(reg) f.rip,
+            options(noreturn)
+        );
+    }
 }
 
-extern "x86-interrupt" fn selftest_crash(_frame: InterruptStackFrame) {
+extern "x86-interrupt" fn selftest_plain(frame: RawFrame) {
+    unsafe { selftest_record(&frame, 200, None) }
+}
+
+extern "x86-interrupt" fn selftest_err(frame: RawFrame, error_code: u64) {
+    unsafe { selftest_record(&frame, 201, Some(error_code)) }
+}
+
+extern "x86-interrupt" fn selftest_crash(_frame: RawFrame) {
     unsafe {
         core::ptr::write_volatile(8 as *mut u64, 1);
     }
